@@ -151,7 +151,7 @@ def part_a(ctx):
                     meta.append(dict(case, cmp='from_dt', finding=finding))
                     rl = cres_dt(back)
                     if rl is not None:
-                        exprs.append('res_eqb dt_eqb (as_dt %s %s) %s' % (K, ctext(text), rl))
+                        exprs.append('let r := as_dt %s %s in is_unmodelled r || res_eqb dt_eqb r %s' % (K, ctext(text), rl))
                         meta.append(dict(case, cmp='as_dt', finding=finding))
                         if dom and not finding:
                             # the theorem's own conclusion, on the model
@@ -195,6 +195,7 @@ def grammar_strings(ctx):
              ('%02d' % rng.randint(0, 23), '%02d' % rng.randint(0, 59), '%02d' % rng.randint(0, 59))]
     gzones = ['Z', '', '+0000', '+0100', '-0100', '+0530', '-0330', '+1400', '-1200', '+01', '-05', '+14']
     thorough = ctx.tier == 'thorough'
+    core_set, extended = [], []
     first = True
     for date in gdates:
         for (h, m, s) in times:
@@ -203,12 +204,14 @@ def grammar_strings(ctx):
                     for L in ([0] if sep == '' else range(1, 7)):
                         exh = first and sep == '.' and (L <= 6 if thorough else L <= 4)
                         for fr in fractions_for(rng, L, exh):
-                            zones = gzones if (exh or not fr or rng.random() < 0.5) else ['Z', rng.choice(gzones[1:])]
+                            zones = gzones if (first and len(fr) <= 2) or not fr or rng.random() < 0.3 else ['Z', rng.choice(gzones[1:])]
                             if exh and len(fr) > 2:
                                 zones = ['Z']
                             for z in zones:
-                                out.append(('G', date + form + sep + fr + z, True))
+                                (core_set if first else extended).append(('G', date + form + sep + fr + z, True))
             first = False
+    rng.shuffle(extended)
+    out = core_set + extended[:ctx.n(700, 12000)]
     udates = ['170801', '991231', '000229', '500101', '491231', '680101', '690101', '%02d%02d%02d' % (rng.randint(0, 99), rng.randint(1, 12), rng.randint(1, 28))]
     uzones = ['Z', '+0000', '+0100', '-0100', '+0530', '-0330', '+1400', '-1200']
     for date in udates:
@@ -228,7 +231,8 @@ def grammar_strings(ctx):
             '20170801120112+ 100', '20170801120112.+5Z', '20170801120112. 5Z', '20170801120112.5_0Z',
             '20170801120112.999999Z', '20170801120112.1000Z', '20170801120112.0000001Z', '2017080112011 Z',
             '2017080 1120112Z', '201708011201120Z', '20170801Z', '201708011Z', 'ABCDEFGHIJKLMN.000Z',
-            '20170801120112.00000Z', '20170801120112.10000Z', '201708011201.12340Z', '20170801120112.0990Z']
+            '20170801120112.00000Z', '20170801120112.10000Z', '201708011201.12340Z', '20170801120112.0990Z',
+            '20170801120112.099Z', '20170801120112.59Z', '20170801120112.000Z']     # witnesses of F12 / F27, pinned cases
     for s in junk:
         out.append(('G', s, False))
         out.append(('U', s[2:] if len(s) > 2 else s, False))
@@ -302,6 +306,11 @@ def part_b(ctx):
             exprs.append('res_eqb text_eqb (time_enc_tbl %s %s %s) %s' % (
                 tbl, K, ctext(s), '(Ok %s)' % ctext(r[1]) if r[0] == 'ok' else '(Err %s)' % r[1]))
             meta.append(dict(c2, cmp='time_enc', finding=None))
+        if frac_of(s) is not None and set(s) <= set('0123456789.Z') and s.count('.') == 1:
+            # the class predicates of F12 / F27: harness and Coq versions agree
+            exprs.append('Bool.eqb (zeros_only_trailing 4 (frac_of %s)) %s && Bool.eqb (no_far_trailing_zero (frac_of %s)) %s' % (
+                ctext(s), coqio.cbool(not f12_class(s)), ctext(s), coqio.cbool(not f27_class(s))))
+            meta.append(dict(case, cmp='finding-class-predicates', finding=None))
         back = as_datetime(T, s)
         rl = cres_dt(back)
         if rl is not None:
